@@ -46,6 +46,15 @@ MODELS = {
             "A": p["k1"] * s["C"] / (1 + s["B"] / p["k2"]),
             "B": p["k1"] * (s["A"] / p["k2"]) * (s["A"] / p["k2"]) / (1 + (s["A"] / p["k2"]) * (s["A"] / p["k2"])) - p["k3"] * s["B"] * (1 + t),
             "C": -(p["k1"] * s["C"] / (1 + s["B"] / p["k2"]))}),
+    # general rates over species and parameters whose names are also sympy constants / functions (E, I, S, N, O, Q)
+    "general_names": dict(
+        species=["S", "E", "I"],
+        reactions=lambda P: [(["S"], ["E"], "general", {"rate": "N*S*E/(1 + I)"}), (["E"], ["I"], "general", {"rate": "Q*E + O*t"})],
+        params=["N", "Q", "O"],
+        rhs=lambda s, p, t: {
+            "S": -(p["N"] * s["S"] * s["E"] / (1 + s["I"])),
+            "E": p["N"] * s["S"] * s["E"] / (1 + s["I"]) - (p["Q"] * s["E"] + p["O"] * t),
+            "I": p["Q"] * s["E"] + p["O"] * t}),
 }
 
 
@@ -58,8 +67,13 @@ def ivp_job(interp, c, case):
     spec = MODELS[name]
     P = {p: c.real(p, lo=0, lo_strict=True) for p in spec["params"]}
     init = {s: c.real("x0_" + s, lo=0) for s in spec["species"]}
-    M = T.ns["Model"](species=list(spec["species"]), reactions=spec["reactions"](P), parameters=list(P.items()),
-                      initial_condition_dict=dict(init))
+    try:
+        M = T.ns["Model"](species=list(spec["species"]), reactions=spec["reactions"](P), parameters=list(P.items()),
+                          initial_condition_dict=dict(init))
+    except (TypeError, ValueError, SyntaxError, AttributeError, KeyError, AssertionError) as e:
+        _rep(c, False, "model '%s' cannot be built: %s: %s" % (name, type(e).__name__, str(e)[:80]), "deterministic model construction fails",
+             {"kind": "deterministic", "model": name, "safe": bool(safe)})
+        return
     if uniform:
         h = c.real("h", lo=0, lo_strict=True)
         tp = np.array([i * h for i in range(npts)], dtype=object)
